@@ -365,7 +365,7 @@ class C07(SessionProp):
 
 
 T_INB = G.Table([
-    (14, G.o_inpub), (8, G.o_inpub_q2), (10, G.o_inrel), (2, G.o_lose_reconnect_persist), (2, G.o_lose_reconnect_clean),
+    (14, G.o_inpub), (8, G.o_inpub_q2), (10, G.o_inrel), (4, G.o_inpub_cut), (2, G.o_lose_reconnect_persist), (2, G.o_lose_reconnect_clean),
     (1, G.o_handlers), (1, G.o_publish), (1, G.o_subscribe), (1, G.o_fire), (1, G.o_ack_good),
 ])
 
@@ -402,7 +402,7 @@ class C06(SessionProp):
 
 
 T_HS = G.Table([
-    (10, G.o_connack), (3, G.o_connack_ok), (6, G.o_advance), (5, G.o_fire), (6, G.o_lose), (3, G.o_handlers),
+    (10, G.o_connack), (3, G.o_connack_ok), (6, G.o_advance), (5, G.o_fire), (6, G.o_lose), (3, G.o_handlers), (4, G.o_connect),
     (4, G.o_reconnect_noack), (2, G.o_reconnect), (3, G.o_publish), (2, G.o_subscribe), (2, G.o_ack_good),
     (1, G.o_disconnect), (1, G.o_pingresp),
 ])
@@ -414,6 +414,14 @@ class C04(SessionProp):
     table = T_HS
     max_words = 25
     tail = (("idle", 200.0),)
+
+    def strategy(self, tier):
+        base = SessionProp.strategy(self, tier)
+
+        def allow(case):
+            cfg, ops = case
+            return (dict(cfg, reconnect_refused=True), ops)
+        return base.map(allow)
     pre_kwargs = dict(connack=(False, False, True), keepalives=(0, 7, 0, 1, 60))
     rule = ("Exhaustive: 3 profiles x 2 versions x keepalive {0,7} x 256 return codes x session-present {0,1} "
             "single-CONNACK cases, and all orderings up to length 4/5 of {CONNACK 0, CONNACK 5, CONNACK 200, "
@@ -426,7 +434,7 @@ class C04(SessionProp):
     EX_ALPHA = [
         [("rx", 0, "CONNACK", 0, 0)], [("rx", 0, "CONNACK", 5, 0)], [("rx", 0, "CONNACK", 200, 1)],
         [("fire", 1)], [("advance", 9)], [("lose", 0, 0)], [("lose", 0, 1)], [("handlers", 0, 0)], [("handlers", 0, 7)],
-        [("advance", 1)],
+        [("advance", 1)], [("connect", 0, 0, 1, 0)], [("publish", 0, 1)],
     ]
     CFGS = [dict(profile=p, version=v, jitter=0.25) for p in (1, 2, 3) for v in (3, 4)]
 
@@ -450,8 +458,9 @@ class C04(SessionProp):
                     n += 1
             res.exhaustive["codes/cfg%d/ka%d" % (ci, ka)] = n
             return res
-        pre = [("build", 0), ("handlers", 0, 7), ("connect", 0, 7 if spec[2] % 2 else 0, 1, 0)]
-        return self.run_product(spec, res, self.CFGS, pre, self.EX_ALPHA, [("idle", 100.0)])
+        pre = [("build", 0), ("handlers", 0, 7), ("connect", 0, 7 if spec[2] % 2 else 0, spec[2] % 3 != 0, 0)]
+        cfgs = [dict(c, reconnect_refused=True) for c in self.CFGS]
+        return self.run_product(spec, res, cfgs, pre, self.EX_ALPHA, [("idle", 100.0)])
 
 
 def o_retrytail(ad, a, b, c):
@@ -595,7 +604,7 @@ class PrefixFaultProp(SessionProp):
 
 T_CLEAN = G.Table([
     (12, G.o_publish), (5, G.o_subscribe), (4, G.o_unsubscribe), (5, G.o_pubrec), (3, G.o_ack_good), (4, G.o_fire),
-    (2, G.o_window), (1, G.o_advance_small), (1, G.o_inpub), (1, G.o_pubcomp),
+    (2, G.o_window), (1, G.o_advance_small), (1, G.o_inpub), (1, G.o_pubcomp), (3, G.o_connack), (1, G.o_arm),
 ])
 POST_CLEAN = [
     [("build", 0), ("handlers", 0, 7), ("connect", 0, 0, 1, 0), ("rx", 0, "CONNACK", 0, 0), ("publish", 0, 1),
@@ -610,8 +619,8 @@ class C11(PrefixFaultProp):
     id = "C11"
     monitor = staticmethod(M.mon_c11)
     table = T_CLEAN
-    pre_fixed = dict(clean=1, keepalive=7, connack=True)
-    pre_kwargs = dict(clean=1)
+    pre_fixed = dict(clean=1, keepalive=7)
+    pre_kwargs = dict(clean=1, connack=(True, True, False))
     post_variants = POST_CLEAN
     quick_examples = 250
     thorough_examples = 6000
@@ -858,6 +867,7 @@ T_TWO = G.Table([
     (10, G.o_publish), (4, G.o_subscribe), (2, G.o_unsubscribe), (8, G.o_ack_good), (2, G.o_ack_any), (3, G.o_inpub),
     (2, G.o_inrel), (5, G.o_advance_small), (2, G.o_window), (2, G.o_lose), (2, G.o_lose_reconnect_persist),
     (2, G.o_lose_reconnect_clean), (1, G.o_reconnect_noack), (1, G.o_connack_ok), (1, G.o_disconnect), (1, G.o_settle),
+    (2, G.o_partial), (1, G.o_inpub_cut),
 ])
 
 
@@ -897,7 +907,8 @@ class C19(SessionProp):
             return vd
         FM = Facts(merged)
         M.mon_c17(merged, FM, vd)
-        vd.viols = [v for v in vd.viols]
+        for v in vd.viols:
+            v.rule = v.rule.replace("C17.", "C19.identifiers.")
         vd.nontrivial = False
         both = False
         pend = {0: set(), 1: set()}
@@ -972,9 +983,27 @@ class C19(SessionProp):
         per = max(1, len(hists) // 32)
         for i in range(0, len(hists), per):
             specs.append(("pairs", L, i, min(i + per, len(hists))))
-        return specs
+        return specs + [("wrapwalk", i) for i in range(4 if tier == "quick" else 12)]
 
     def run_exhaustive(self, spec, res):
+        if spec[0] == "wrapwalk":
+            # the only shared resource is the identifier counter: one address keeps requests unfinished while
+            # the other takes the counter all the way round
+            i = spec[1]
+            cfg = dict(profile=3, version=4 if i % 2 else 3, jitter=0.25)
+            busy, walker = (i >> 1) & 1, 1 - ((i >> 1) & 1)
+            ops = []
+            for a in (0, 1):
+                ops += [("build", a), ("handlers", a, 7), ("window", a, 8), ("connect", a, 0, (i + a) % 2, 0), ("rx", a, "CONNACK", 0, 0)]
+            ops += [("walk", walker, 20 + i, 1), ("publish", busy, 1), ("publish", busy, 2), ("subscribe", busy, 0, 1, 1)]
+            if i % 3 == 0:
+                ops.append(("rx", busy, "PUBREC", 0, 0, 0))
+            ops += [("walk", walker, 65600, 1), ("publish", busy, 1), ("publish", busy, 2), ("publish", walker, 1),
+                    ("settle", 0), ("settle", 1), ("advance", 9)]
+            case = (cfg, ops)
+            res.add("exhaustive:wrap_walk", case, self.check_case(case))
+            res.exhaustive["wrapwalk%d" % i] = 1
+            return res
         _, L, lo, hi = spec
         n = len(self.EX_ALPHA)
         hists = [()]
@@ -1073,6 +1102,10 @@ class C03(SessionProp):
             pre["connack"] = not with_connack
             pre["keepalive"] = pre["keepalive"] or 0
             setup = G.preamble(cfg, pre)
+            if cutseed[0] % 5 == 0:
+                # an earlier connection through the same factory ended in the middle of a packet
+                earlier = G.preamble(cfg, dict(pre, connack=True)) + G.o_partial(0, cutseed[0] >> 3, 0, 0) + [("lose", 0, cutseed[0] % 3)]
+                setup = earlier + setup
             if not with_connack:
                 setup += [("window", 0, 8)] + T_SETUP.decode(setup_w)
             stream = ([("rx", 0, "CONNACK", 0, 1)] if with_connack else []) + T_STREAM.decode(stream_w)
@@ -1203,7 +1236,12 @@ class C03(SessionProp):
             d = e.d["desc"]
             evs = M._ctx_events(w1, e)
             kinds = [x.k for x in evs]
-            if d[0] in ("PUBACK", "PUBCOMP", "SUBACK", "UNSUBACK") and d[-1] in (0, 1, 2):
+            if d[0] == "CONNACK" and w1.ops_done[e.step][0] == "rx":
+                if not any(x.k == "phase" and x.c == e.c and x.step == e.step for x in w1.log[max(0, e.i - 3):e.i]):
+                    continue          # not the CONNACK of a pending handshake
+                if "fire" not in kinds:
+                    vd.bad("C03.packet_without_effect", "CONNACK code %s did not settle the pending connect()" % d[1])
+            elif d[0] in ("PUBACK", "PUBCOMP", "SUBACK", "UNSUBACK") and d[-1] in (0, 1, 2):
                 if d[0] == "PUBCOMP":
                     continue     # only effective after a PUBREC; judged by C05
                 if "fire" not in kinds:
@@ -1531,7 +1569,16 @@ C20_STATES = {
                            ("publish", 0, 1), ("publish", 0, 2), ("rx", 0, "PUBREC", 0, 0, 0), ("subscribe", 0, 0, 1, 1), ("unsubscribe", 0, 0, 1, 0)],
                           ("set", "pub", "sub")),
 }
-C20_TABLES = {"set": C20_SETTERS, "conn": C20_CONNECT, "pub": C20_PUBLISH, "sub": C20_SUBSCRIBE}
+C20_STATES["idle_with_session"] = (
+    [("build", 0), ("handlers", 0, 7), ("window", 0, 4), ("connect", 0, 0, 0, 0), ("rx", 0, "CONNACK", 0, 0), ("publish", 0, 1), ("publish", 0, 2),
+     ("rx", 0, "PUBREC", 0, 0, 0), ("lose", 0, 1), ("build", 0), ("handlers", 0, 7)], ("conn2",))
+C20_CONNECT2 = [_conn("reject", cleanStart=False, keepalive=-1), _conn("reject", cleanStart=False, willQoS=3),
+                _conn("reject", cleanStart=False, version=0), _conn("reject", cleanStart=False, password="p"),
+                _conn("reject", cleanStart=False, username=_s("u", LONG + 1)), _conn("reject", cleanStart=False, willTopic="w"),
+                _conn("reject", cleanStart=True, keepalive=65536), _conn("reject", cleanStart=False, version=["@v31"], clientId="x" * 24),
+                _conn("reject", cleanStart=False, clientId=_s("\u20ac", LONG + 3))]
+C20_SUFFIX_SESSION = [("lose", 0, 0), ("build", 0), ("handlers", 0, 7), ("connect", 0, 0, 0, 0), ("rx", 0, "CONNACK", 0, 1), ("settle", 0), ("advance", 5)]
+C20_TABLES = {"set": C20_SETTERS, "conn": C20_CONNECT, "pub": C20_PUBLISH, "sub": C20_SUBSCRIBE, "conn2": C20_CONNECT2}
 C20_SUFFIX = [("publish", 0, 1), ("subscribe", 0, 0, 1, 1), ("settle", 0), ("publish", 0, 2), ("fire", 1), ("settle", 0), ("advance", 5)]
 C20_SUFFIX_IDLE = [("connect", 0, 0, 1, 0), ("rx", 0, "CONNACK", 0, 0), ("publish", 0, 1), ("settle", 0), ("advance", 5)]
 
@@ -1604,7 +1651,7 @@ class C20(SessionProp):
         rows = self.applicable(tables, p)
         n = 0
         for row in rows:
-            suffix = C20_SUFFIX_IDLE if name.startswith("idle") else C20_SUFFIX
+            suffix = C20_SUFFIX_SESSION if name == "idle_with_session" else C20_SUFFIX_IDLE if name.startswith("idle") else C20_SUFFIX
             if row[0] == "connect" and row[3] == "accept":
                 suffix = [("rx", 0, "CONNACK", 0, 0), ("advance", 5)]
             ops = list(setup) + [_call(row)] + list(suffix)
@@ -1625,6 +1672,15 @@ C16_STATES = [
     ("connected_persistent", [("build", 0), ("handlers", 0, 7), ("window", 0, 4), ("connect", 0, 0, 0, 0), ("rx", 0, "CONNACK", 0, 1),
                               ("publish", 0, 2), ("rx", 0, "PUBREC", 0, 0, 0), ("publish", 0, 1), ("subscribe", 0, 2, 2, 6), ("rx", 0, "PUBLISH", 2, 0, 2)]),
 ]
+C16_STATES.append(
+    ("resuming_persistent", [("build", 0), ("handlers", 0, 7), ("window", 0, 4), ("connect", 0, 0, 0, 0), ("rx", 0, "CONNACK", 0, 0),
+                             ("publish", 0, 1), ("publish", 0, 2), ("rx", 0, "PUBREC", 0, 0, 0), ("publish", 0, 2), ("subscribe", 0, 0, 1, 1),
+                             ("lose", 0, 1), ("build", 0), ("handlers", 0, 7), ("window", 0, 4), ("connect", 0, 0, 0, 0)]))
+C16_STATES.append(
+    ("two_brokers", [("build", 1), ("handlers", 1, 7), ("window", 1, 4), ("connect", 1, 0, 1, 0), ("rx", 1, "CONNACK", 0, 0),
+                     ("publish", 1, 1), ("publish", 1, 2), ("rx", 1, "PUBREC", 0, 0, 0), ("publish", 1, 2), ("subscribe", 1, 0, 1, 1),
+                     ("unsubscribe", 1, 0, 1, 0),
+                     ("build", 0), ("handlers", 0, 7), ("window", 0, 4), ("connect", 0, 7, 1, 0), ("rx", 0, "CONNACK", 0, 0), ("publish", 0, 1)]))
 C16_TAIL = [("lose", 0, 1), ("idle", 60.0)]
 _POOLS = {}
 
@@ -1637,7 +1693,7 @@ def c16_pool(profile, version, state_i):
     from . import refcodec as R
     cfg = dict(profile=profile, version=version, jitter=0.25, rude=True)
     w = sim.run_case(cfg, C16_STATES[state_i][1])
-    conn = w.conns[0]
+    conn = w.conns[0]         # the connection on which the requests were made (ids are what matters)
     ver = version
     pool = [R.ref_encode("CONNACK", dict(session_present=False, code=0), ver), R.ref_encode("CONNACK", dict(session_present=True, code=5), ver),
             R.ref_encode("PINGRESP", {}, ver)]
@@ -1729,7 +1785,7 @@ class C16(SessionProp):
             for si in range(len(C16_STATES)):
                 for lo in range(0, 256, 32):
                     # quick: bodies up to 2 bytes everywhere and up to 3 on the pub/sub profile, connected clean
-                    ml = (3 if (p == 3 and si == 1) else 2) if tier == "quick" else 4
+                    ml = (3 if (p == 3 and si == 1) else 1 if si >= 3 else 2) if tier == "quick" else 4
                     specs.append(("bytes", p, si, lo, lo + 32, ml))
                 specs.append(("mut", p, si, 4 if (p + si) % 2 else 3))
         return specs
